@@ -304,8 +304,9 @@ func (b *builder) gen1(g *SX) *rapid.Generator[any] {
 		in := b.in
 		return asAny(rapid.Custom(func(t *rapid.T) any {
 			env := map[string]any{}
-			ret := in.stmts(t, env, body)
-			return ret
+			in.customDepth++
+			defer func() { in.customDepth-- }()
+			return in.stmts(t, env, body)
 		}))
 	case "deferred":
 		inner := g.List[1]
